@@ -19,7 +19,7 @@ from krrood.entity_query_language.symbol_graph import SymbolGraph
 
 PROPS = oworld.ONTOLOGY["properties"]
 F2P = oworld.FIELD_TO_PROPERTY
-RELATABLE = [(p["cls"], p["field"], p["range"]) for p in PROPS.values()]
+RELATABLE = [(c, PROPS[P]["field"], PROPS[P]["range"]) for c, ps in oworld.CLASS_PROPERTIES.items() for P in ps]
 
 
 # ------------------------------------------------------------------------ reference model
@@ -32,8 +32,8 @@ def closure(facts: Set[Tuple[int, str, int]], cls_of: Dict[int, str], taker_of: 
 
     def held_by(cls_name, descriptor):
         """The property of class `cls_name` whose field is managed by exactly this descriptor class."""
-        for name, q in PROPS.items():
-            if q["cls"] == cls_name and q["descriptor"] == descriptor:
+        for name in oworld.CLASS_PROPERTIES[cls_name]:
+            if PROPS[name]["descriptor"] == descriptor:
                 return name
         return None
 
@@ -89,7 +89,7 @@ class Population:
             return None
         if cls_name in ("Boss", "Dean"):
             taker = desc[2]
-            if taker not in self.objs or self.cls_of[taker] != "Human":
+            if taker not in self.objs or not oworld.is_a(self.cls_of[taker], "Human"):
                 return None
             obj = oworld.ONTOLOGY_CLASSES[cls_name](self.objs[taker], serial, **kwargs)
             self.taker_of[serial] = taker
@@ -159,6 +159,36 @@ def write(pop: Population, s: int, field: str, t: int, path: str, counters) -> s
     return used
 
 
+def write_batch(pop: Population, s: int, field: str, ts: List[int], path: str, counters) -> str:
+    """Deliver several facts about one collection field by ONE write; monotone (nothing already there is removed)."""
+    so = pop.objs[s]
+    values = [pop.objs[t] for t in ts]
+    kind = PROPS[F2P[(pop.cls_of[s], field)]]["kind"]
+    cur = getattr(so, field)
+    if kind == "list":
+        if path == "assign_container" and len(cur) == 0:
+            setattr(so, field, list(values))
+            used = "assign_container"
+        elif path == "iadd":
+            exec(f"o.{field} += xs", {"o": so, "xs": list(values)})
+            used = "iadd"
+        else:
+            cur.extend(values)
+            used = "extend"
+    else:
+        if path == "assign_container" and len(cur) == 0:
+            setattr(so, field, set(values))
+            used = "assign_container"
+        elif path == "ior":
+            exec(f"o.{field} |= xs", {"o": so, "xs": set(values)})
+            used = "ior"
+        else:
+            cur.update(values)
+            used = "update"
+    counters.inc("fault.write_path.batch_" + used)
+    return used
+
+
 def result(log, counters, verdicts, nontrivial, shape):
     counters.inc("runs")
     return {"verdicts": verdicts, "digest": log.digest(), "counters": dict(counters), "nontrivial": bool(nontrivial), "shape": shape}
@@ -215,6 +245,10 @@ def shrink_candidates(sc: Dict):
         if op[0] == "deliver" and op[1] < len(sc.get("facts", [])):
             f = sc["facts"][op[1]]
             used.update([f[0], f[2]])
+        if op[0] == "deliver_batch":
+            for i in op[1]:
+                if i < len(sc.get("facts", [])):
+                    used.update([sc["facts"][i][0], sc["facts"][i][2]])
         if op[0] in ("w",):
             used.update(x for x in op[2:] if isinstance(x, int))
     for p in pop:
